@@ -256,7 +256,7 @@ fn supervisor(a: &[String]) -> i32 {
     let parallel: usize = std::env::var("VERIF_JOBS").ok().and_then(|s| s.parse().ok()).unwrap_or_else(|| {
         std::thread::available_parallelism().map(|n| n.get()).unwrap_or(4)
     });
-    let outdir = Path::new(VERIF_DIR).join("out/run").join(format!("{}-{}-{}", p.id, tier.name(), std::process::id()));
+    let outdir = Path::new(&verif_dir()).join("out/run").join(format!("{}-{}-{}", p.id, tier.name(), std::process::id()));
     let _ = std::fs::remove_dir_all(&outdir);
     std::fs::create_dir_all(&outdir).expect("mkdir out");
     let budget = Duration::from_secs(tier.pick(p.budget_s.0, p.budget_s.1));
@@ -349,7 +349,7 @@ fn supervisor(a: &[String]) -> i32 {
             continue;
         }
         let Some(w) = &k.witness else { continue };
-        let wp = Path::new(VERIF_DIR).join("findings").join(w);
+        let wp = Path::new(&verif_dir()).join("findings").join(w);
         let r = run_isolated(&exe, &wp);
         merged.evaluations += 1;
         match (k.status.as_str(), r) {
@@ -474,7 +474,7 @@ fn supervisor(a: &[String]) -> i32 {
         "wall_s": wall,
         "violations": merged.violations.len() + if p.hang_is_violation { hangs.len() } else { 0 },
     });
-    let evdir = Path::new(VERIF_DIR).join("evidence");
+    let evdir = Path::new(&verif_dir()).join("evidence");
     let _ = std::fs::create_dir_all(&evdir);
     let _ = std::fs::write(evdir.join(format!("{}.json", p.id)), serde_json::to_string_pretty(&ev).unwrap());
     let _ = writeln!(
